@@ -32,7 +32,7 @@ from bitproto.renderer.block import (
 )
 from bitproto.renderer.impls.go.formatter import GoFormatter as F
 from bitproto.renderer.renderer import Renderer
-from bitproto.utils import cached_property, override, snake_case
+from bitproto.utils import cached_property, override
 
 GO_LIB_IMPORT_PATH = "github.com/hit9/bitproto/lib/go"
 
@@ -261,9 +261,9 @@ class BlockMessageField(BlockBindMessageField[F]):
     @override(Block)
     def render(self) -> None:
         self.push_definition_comments()
-        snake_case_name = snake_case(self.message_field_name)
+        # The key C and Python print too: the field's name in the schema.
         self.push(
-            f'{self.message_field_name} {self.message_field_type} `json:"{snake_case_name}"`'
+            f'{self.message_field_name} {self.message_field_type} `json:"{self.d.name}"`'
         )
         self.push_typing_hint_inline_comment()
 
